@@ -237,6 +237,7 @@ PROPS = {
         "technique": "runtime history monitor: server.close() and wait_for_shutdown() driven on the server's own runtime with call/return events logged; oracle over seq order for response completeness, close-after-every-handler-end, equal waiter results, refused port, deadlock by the re-run rule",
         "engines": [
             {"name": "c17-shutdown", "bin": "vmon_hist", "package": "hist"},
+            {"name": "c17-tls", "bin": "vmon_tls", "package": "tlsmon"},
         ],
         "assumptions": ASSUME_COMMON,
     },
@@ -248,6 +249,7 @@ PROPS = {
         "technique": "runtime monitoring: RFC 6455 / RFC 9110 list-syntax reference model with independent SHA-1/base64 plus history monitor (CH_ENTER/CH_EOF event log) over a raw-socket client and real servers",
         "engines": [
             {"name": "c20-handshake", "bin": "vmon_wsp", "package": "wsp"},
+            {"name": "c20-tls", "bin": "vmon_tls", "package": "tlsmon"},
         ],
         "assumptions": ASSUME_COMMON,
     },
